@@ -144,7 +144,11 @@ def evidence(pid, tier, seed, recs, n_obl, n_dis, bounded, n_viol, n_known, note
     cov['evaluations'] = ev_eval
     cov['distinct_nontrivial'] = ev_n
     cov['samples'] = samples or [dict(note='no obligations generated')]
-    return dict(property_id=pid, tier=tier if tier in ('quick', 'thorough') else 'quick', seed=seed, level='other',
+    try:
+        level = json.load(open(os.path.join(HERE, 'tools', 'claims.json'))).get(pid, {}).get('category', 'other')
+    except Exception:
+        level = 'other'
+    return dict(property_id=pid, tier=tier if tier in ('quick', 'thorough') else 'quick', seed=seed, level=level,
                 coverage=cov, assumptions=ASSUMPTIONS + STANDING + (bounded.get('assumptions', []) if bounded else []),
                 wall_s=round(wall, 2), violations=n_viol)
 
